@@ -296,6 +296,20 @@ def uniqOracle (m : St) (obs : List Obs) : Option (String × String) :=
 
 def findObs (obs : List Obs) (i : Nat) : Option Obs := obs.find? (·.id == i)
 
+/-- C08: `try_into_mut` succeeds exactly when `is_unique`, as the implementation itself answered it
+on the same handle just before the call, is true -/
+def tryMutOracle (op : Op) (out : Outc) (pre : List Obs) : Option (String × String) :=
+  match op, out with
+  | .tryIntoMut i, .ok (.handle _) =>
+    match (findObs pre i).bind (·.uniq) with
+    | some false => some ("C08", "try_into_mut succeeded although is_unique was false on that handle")
+    | _ => none
+  | .tryIntoMut i, .ok (.err _) =>
+    match (findObs pre i).bind (·.uniq) with
+    | some true => some ("C08", "try_into_mut failed although is_unique was true on that handle")
+    | _ => none
+  | _, _ => none
+
 def addrOf (o : Obs) : Option (Nat × Nat) := o.blk.map fun (s, off, _) => (s, off)
 
 /-- C07 (zero-copy), C04 (reserve / try_reclaim promises), C13 (panic leaves everything intact):
@@ -452,6 +466,9 @@ def judgeBlock (s : JS) : IO JS := do
   | some (p, msg) => emit s true s!"oracle-fail {p} op={opw.headD "?"} what={msg.replace " " "_"}"
   | none =>
   match opOracle op out s.prev b.obs b.evs s.pack with
+  | some (p, msg) => emit s true s!"oracle-fail {p} op={opw.headD "?"} what={msg.replace " " "_"}"
+  | none =>
+  match tryMutOracle op out s.prev with
   | some (p, msg) => emit s true s!"oracle-fail {p} op={opw.headD "?"} what={msg.replace " " "_"}"
   | none =>
   -- C03: owners
